@@ -36,12 +36,14 @@ CLAIMED = {
  "C13": dict(
   technique="Lean 4 proof: next_version/bump on the structured key (lexicographic order lemmas); immutability by construction of the functional model + correspondence snapshots",
   text=("Theorems: bump_major/minor/patch give (X+1).0.0, X.(Y+1).0, X.Y.(Z+1) for every object (epoch kept for the packaging class); for the plain class "
-        "next_version(part) exists for every valid part, is strictly higher and resets the lower parts, for all numbers; an invalid part is ValueError for "
+        "next_version(part) exists for every valid part, is strictly higher and resets the lower parts, for all numbers; for EVERY packaging version whose key exists (any "
+        "epoch, numbers, pre/post/dev/local segments) next_version of epoch/major/minor/patch exists, has a key and is strictly higher (C13_next_pkg: the segments are dropped when "
+        "the version is before its final release - lt_final - otherwise the release is bumped); an invalid part is ValueError for "
         "every class; the valid parts are the advertised ones (regenerated tables); release-list lemmas nr_bump_* (the key strictly grows under each bump "
         "whatever the trailing zeros) are proved for reuse by the semantic and packaging classes. next_version of those two classes, and the pre/post/dev "
         "parts that go through increment on arbitrary tag text, are decided by kernel-evaluated instances plus the correspondence and a sweep over the C07 "
         "grammars (every valid part, never-lower, strictly-higher, reset, operation sequences with to_tuple/str/hash snapshots)."),
-  note=("Trusted: as C07. Partial: monotonicity for the semantic/packaging classes and for pre/post/dev is validated, not proved; immutability of the real "
+  note=("Trusted: as C07. Partial: monotonicity for the semantic class and for the pre/post/dev parts is validated, not proved; immutability of the real "
         "objects (slots, __setattr__) is observed through the correspondence, the functional model cannot mutate by construction."),
   design="§6 C13"),
 }
